@@ -203,7 +203,7 @@ PROPERTIES.update({
 })
 
 PROPERTIES.update({
-    'C09': _p(['R-REPEAT-COUNT', 'R-PREFIX-PROTOCOL', 'R-IDENTITY-EQ', 'R-EARLEY-PROTOCOL'],
+    'C09': _p(['R-REPEAT-COUNT', 'R-PREFIX-PROTOCOL', 'R-IDENTITY-EQ', 'R-EARLEY-PROTOCOL', 'R-PRIO-SIBLINGS'],
               'the COUNT ALGEBRA of the repetition compiler, by abstract interpretation of the tree-building code (counts as integer '
               'intervals with polynomial end points, identities decided by normal form): _add_repeat_rule(a, b, target=T) builds a rule '
               'matching exactly a*T + b; _add_repeat_opt_rule builds one matching 0 .. a*T + b - 1 given an optional part matching 0 .. T - 1; '
@@ -216,7 +216,8 @@ PROPERTIES.update({
               'the inner regexp is grouped and followed by the operator, {n} or {n,m}; helper rule names are inlined ("__" prefix); trees are not '
               'compared by identity (`[x] * n` repeats one object); equal alternatives produced by multiplying out ? and ~n..m are merged; '
               'small_factors admits 0 and 1; NULLABLE is computed to a fixpoint (a large x~0..m is nullable only through helper rules filed after '
-              'the user rules -- clause e9 of R-EARLEY-PROTOCOL, its other clauses do not count here).',
+              'the user rules -- clause e9 of R-EARLEY-PROTOCOL, its other clauses do not count here); EBNF helper rules get fresh options carrying at most '
+              'keep_all_tokens (a helper inheriting `?` is collapsed and splices an occurrence\'s children into the parent -- clause helper-options of R-PRIO-SIBLINGS).',
               'that the parsing engines match what the compiled rules denote (C01/C02); semantics of regex quantifiers (trusted: re); '
               'terminals that can match the empty string; order of children beyond the helper names being inlined.',
               'abstract interpretation over a count domain (intervals with polynomial bounds), path enumeration of the compiler functions, '
